@@ -100,6 +100,14 @@ def main():
     ok &= expect("Trace_Complete rejects an internal error", v[4], "forbidden-outcome")
     ok &= expect("Trace_Complete allows NotImplementedError for Core + navigation", v[5], "ok")
     ok &= expect("Trace_Complete rejects NotImplementedError elsewhere", v[6], "forbidden-outcome")
+    # --- Trace_Reduce
+    import lrtrace
+    tree, ev = lrtrace.reductions("a/b/c eq 1 and f.g(x, y)")
+    sw = list(ev); sw[0], sw[1] = sw[1], sw[0]
+    v = verdicts("Trace_Reduce", [{"id": 1, "tree": tree, "events": ev}, {"id": 2, "tree": tree, "events": sw}, {"id": 3, "tree": tree, "events": ev[:-1]}])
+    ok &= expect("Trace_Reduce accepts the real reductions", v[1], "ok")
+    ok &= expect("Trace_Reduce rejects two swapped reductions", v[2], "mismatch")
+    ok &= expect("Trace_Reduce rejects a dropped reduction", v[3], "missing-events")
     print("ALL OK" if ok else "SOME FAILED")
     return 0 if ok else 1
 
